@@ -4,7 +4,7 @@ from .. import gen, elect, refstv
 from ..common import Names, rat
 
 PROP = "C01"
-LEAN_MODULE = "VK.Props.C01VetoTerm"
+LEAN_MODULE = "VK.Check.C01"
 THEOREMS = [
     "VK.C01_topM_two_states",
     "VK.stvStep_inv",
@@ -55,6 +55,10 @@ THEOREMS = [
     "VK.stvRun_head",
     "VK.Good_lift",
     "VK.C01_alaska_partition",
+    "VK.kernel_veto_decrement",
+    "VK.kernel_veto_struck",
+    "VK.kernel_veto_zero",
+    "VK.kernel_veto_final",
 ]
 RULE = ("cases = rule (18 classes) x random valid profile (1-6 candidates incl. zero-vote ones, 0-10 ballots, partial "
         "ballots, tied positions where the rule allows them, unit/int/rational weights; score ballots within limits for "
